@@ -251,6 +251,9 @@ def build_menu(key, n, has_trailing, menu):
         E('len', (), "len(a)")
         E('copy', (), "__import__('copy').copy(a)")
         E('copy', (), "a[:]", False)
+        if n >= 2:
+            # an iterator reads the live data, like a list iterator: an item assigned after iteration has begun is seen
+            E('iterlive', (vals[0],), f"(lambda it: (next(it), a.__setitem__({n - 1}, {vsrc(vals[0])}), list(it))[::2])(iter(a))", True)
         E('equals', ('self',), "a.equals(a)")
         E('equals', ('copy',), "a.equals(a[:])", False)
         E('equals', ('other',), f"a.equals(Array({key!r}, [{vsrc(vals[0])}]))")
@@ -450,6 +453,9 @@ def model_step(st, ev):
         return OK(n, same)
     if op == 'copy':
         return OK(arr(key, chunks, tr if ev.src != 'a[:]' else ''), same)
+    if op == 'iterlive':
+        new = chunks[:-1] + [dt.enc(a[0])]
+        return OK(cv((dt.dec(new[0]), [dt.dec(c) for c in new[1:]])), (key, ''.join(new) + tr))
     if op == 'equals':
         what = a[0]
         if what == 'self':
